@@ -1323,7 +1323,6 @@ func runConsumeReset(p *Program, c *Collector, cs ConsumeResetSpec) {
 	}
 }
 
-
 // ---------------------------------------------------------------------------------------------
 // (h) nesting: a callback for a grammar rule that can contain itself (annotation -> elementValue -> annotation) fires for the
 // nested occurrences too, in the same listener state. A callback that records "the X of the enclosing declaration" must
@@ -1394,7 +1393,6 @@ func runNesting(p *Program, sp *Spec, c *Collector, ns NestingSpec) {
 		c.Ob(ns.Props, "E6.nesting", key, Violated, ns.What+": rule "+rule+" can occur inside itself (through "+via+"), and the callback records every occurrence alike without looking at its parent: a nested occurrence is recorded as if it stood on the declaration", p.FuncPos(fn), false)
 	}
 }
-
 
 // ---------------------------------------------------------------------------------------------
 // (i) co-access: the grammar spreads one notion over two child symbols of a rule (formalParameterList: formalParameter
